@@ -526,6 +526,9 @@ class Ctx:
                                           observed=f["observed"], what=f["what"], failure_kind=f["kind"])
                 lines.append("VIOLATION property=%s replay=%s" % (self.pid, path))
                 violations += 1
+            if self.disagreements:
+                lines.append("  also %d model/implementation disagreements, first: %s" % (
+                    len(self.disagreements), json.dumps(self.disagreements[0], default=str)[:1200]))
         elif self.proof_problems or self.disagreements:
             # the property is no longer shown to hold, but no failing input was found
             path = self._write_replay(
